@@ -610,6 +610,21 @@ func pausedFrozen(r *sim.Record, v *ersView) []V {
 				out = append(out, V{"C08", "paused-frozen", "C08/paused-frozen/no-create-while-only-paused", fmt.Sprintf("replica set %s created nothing although rolling-update-paused only stops updates and nodes %v have no pod", v.rs.Name, empty)})
 			}
 		}
+	case oracle.RoleUnknown:
+		// a set that is neither active nor canary (superseded, or a failed canary after the rollback) takes no part in
+		// the rollout: while it is paused or frozen its pods are outdated pods like any other and stay where they are
+		paused, frozen := annTrue(v.eds, oracle.AnnRollingPaused), annTrue(v.eds, oracle.AnnRolloutFrozen)
+		if (paused || frozen) && len(v.deletes) > 0 {
+			which := "rolling-update-paused"
+			if frozen {
+				which = "rollout-frozen"
+			}
+			var names []string
+			for _, c := range v.deletes {
+				names = append(names, c.Name)
+			}
+			out = append(out, V{"C08", "paused-frozen", "C08/paused-frozen/deletion-by-a-set-that-is-neither-active-nor-canary-while-" + which, fmt.Sprintf("replica set %s (neither active nor canary) deleted %v while %s=true", v.rs.Name, names, which)})
+		}
 	case oracle.RoleCanary:
 		if len(v.creates) == 0 {
 			return nil
